@@ -185,12 +185,26 @@ CHECKS = {
               "task lists of live environments pairwise disjoint and consistent with GetTasks.locked / GetTask.envId, includedDetectors pairwise "
               "disjoint and equal to GetActiveDetectors, every KILL / command MESSAGE at the master joined with ownership at the start of the "
               "operation never reaches a task of another live environment, refused creates leave the holder untouched. Non-trivial: >=2 live "
-              "environments, a detector conflict, or a cleanup while an environment is live."),
+              "environments, a detector conflict, or a cleanup while an environment is live. "
+              "In process (TestManagerOwnership, overlay hook H5): the real task.Manager without the Mesos controller; rapid-generated "
+              "sequences of 4-17 operations (acquire for a new environment on a subset of 3 hosts with or without a descriptor that is not "
+              "deployed, teardown = release + KillTasks or release only, KillTasks with listed ids including owned ones, Cleanup, release of "
+              "another environment's tasks, answer a parked item, deliver a pending status) where every KILL call, every deployment verdict, "
+              "every TASK_RUNNING and TASK_KILLED can be parked and answered (accepted or refused) in the drawn order while other operations "
+              "run, with task reuse on or off. Oracle at every KILL call and after every operation: no KILL for a task that is locked or that "
+              "an environment acquired and has not released; no task held by two environments; an acquired task keeps reporting its "
+              "environment and stays in the roster unless a KILL was accepted for it; kill/cleanup results never list an owned task; at "
+              "quiescence no task is locked by an environment that does not hold it. Non-trivial there: >=2 acquired environments and an "
+              "overlap, a cleanup, a listed kill or a foreign release."),
         assumptions=["ownership at the start of an operation is read through the API at quiescence and cross-checked for consistency",
-                     "interleavings inside the core beyond the forced overlap are not owned"],
-        quick=[R("^(TestFixed|TestSavedDetectorRace)$", 1, 1, 500), R("^TestOwnership$", 10, 10, 800, shrinktime="90s")],
-        thorough=[R("^(TestFixed|TestSavedDetectorRace)$", 1, 1, 500), R("^TestOwnership$", 150, 15, 3400, shrinktime="180s")],
-        floors={"multi-env": ("TestOwnership", 0.25)},
+                     "interleavings inside the core beyond the forced overlap are not owned",
+                     "in-process part: the deployment verdict is produced by the harness (hook H5 builds the launched tasks with the manager's own newTaskForMesosOffer); "
+                     "operations that are neither finished nor parked after a short quiet period are taken to wait on an internal lock (affects which interleavings are explored, not the verdict)"],
+        quick=[R("^(TestFixed|TestSavedDetectorRace)$", 1, 1, 500), R("^TestOwnership$", 10, 10, 800, shrinktime="90s"),
+               R("^TestManagerFixed$", 1, 1, 300), R("^TestManagerOwnership$", 60, 5, 400, shrinktime="60s")],
+        thorough=[R("^(TestFixed|TestSavedDetectorRace)$", 1, 1, 500), R("^TestOwnership$", 150, 15, 3400, shrinktime="180s"),
+                  R("^TestManagerFixed$", 1, 1, 300), R("^TestManagerOwnership$", 1500, 12, 3400, shrinktime="180s")],
+        floors={"multi-env": ("TestOwnership", 0.25), "overlap": ("TestManagerOwnership", 0.3), "reuse": ("TestManagerOwnership", 0.4)},
     ),
     "C06": dict(
         pkg="./props/c06", bins=["./cmd/simcore"], level="fault_enumeration",
